@@ -238,3 +238,16 @@ Fixpoint decode_all (lines : list tok) : option (list (list tok) * list stmt) :=
       end
   | TStr _ :: _ => None
   end.
+
+(* the lines of a parsed document that `ignore` leaves (`ignore and line[0] in ignore`) *)
+Fixpoint keep_lines (ig : option (list pstr)) (lines : list tok) : option (list tok) :=
+  match lines with
+  | [] => Some []
+  | TList l :: rest =>
+      match ignored ig l, keep_lines ig rest with
+      | Ok true, Some k => Some k
+      | Ok false, Some k => Some (TList l :: k)
+      | _, _ => None
+      end
+  | TStr _ :: _ => None
+  end.
